@@ -78,6 +78,13 @@ CLAIMED = {
         "Tie: on every run the recorded interleaving of evaluations and write() calls of every writer must be exactly that sequence, a fault is injected at every evaluation position of small generated tables, and potable is run on every target with a formula that leaves its domain part-way (exit status, output file empty or absent).",
    note="Trusted: Coq kernel; that each writer's effects are the modelled sequence is a per-run behavioural check, not a translation; OS-level file behaviour and runtime faults (MemoryError, signals) are outside the model. No axioms.",
    technique="Coq proof over an effect model + exhaustive fault injection correspondence", ref="DESIGN.md section 4 C17"),
+ 'C18': dict(
+   text="Coq theorems over model/TableReader.v: (reader) for every data file whose rows have pairwise different x, whatever the row order and wherever comments and blank lines stand, TableReader returns the tabulated y at every tabulated x (c18_reader_rows), strictly between two neighbouring rows the convex combination of their y values, hence a value between them (c18_reader_between), and 0 outside; "
+        "(table form) x/y lists and xy pairs parse to the same data, odd counts / unequal lengths are configuration errors; the table form is zero outside [xmin, xmax] with both derivatives, and deriv / deriv2 are the true derivatives (Coquelicot is_derive) of the interpolant and of deriv at every real x off the knots and the two ends; (plot) exactly `steps` rows at x_i = lowx + i*(highx-lowx)/steps, pairwise different, inside [lowx, highx). "
+        "PARTIAL: scipy's spline fit is not modelled -- the table-form model is the piecewise polynomial read back from the fitted object, and that it passes through the data points is checked per case by the oracle only. "
+        "Tie: exact-body assertions of getValue / _findIndex / _populate / _parse_xy / _parse_x_y / _parse_data / Cubic_Spline_Table_Form / plotToFile (+ translated plot arithmetic); query sequences on one reader, table-form value/deriv/deriv2, parser outcomes and plot rows compared with the model by vm_compute.",
+   note="Trusted: Coq kernel; hand-written rational model tied by AST assertions + behavioural comparison; float rounding not modelled (exact at tabulated x / outside, 1e-9 relative in between); scipy fit outside the model; Reals axioms + classic + funext for the derivative theorems only.",
+   technique="Coq proof over a rational/real model of the readers + vm_compute correspondence (scipy fit checked by oracle only: partial)", ref="DESIGN.md section 4 C18"),
  'C19': dict(
    text="Coq theorems over the layout models of the secondary targets: GULP blocks ('spline cubic', 'A B cutoff', nr rows 'energy separation' at r_i = i*cutoff/(nr-1)); ADP = setfl of the same model followed by unscaled dipole then quadrupole blocks for pairs (i, j<=i), zero when undeclared, either order; "
         "funcfl header = grid tabulated and (Z^2 * 27.2 * 0.529 / r = phi) over the reals; Excel sheets with r/rho in the first column on the tabulation grid and every cell the labelled function at that row. Tie: byte-exact / cell-by-cell correspondence for API and potable routes (nrho != nr generated deliberately).",
